@@ -59,9 +59,20 @@ def errdisc(kinds, pid):
                             tt = f.blocks[n[1]]["term"]
                             if tt["t"] == "call" and (callee_name(tt) or "").endswith("FromResidual<std::result::Result<std::convert::Infallible, E>>>::from_residual"):
                                 sets_err = True
+                    if not sets_err and any(n in reach for n in v.all_err_nodes()):
+                        sets_err = True   # an error exit of an inlined helper (its Err is threaded to the caller's local)
                     if not sets_err:
                         bad = True
-                    if bad:
+                    # ... on every way out: a return reached from the Err arm without passing an error exit
+                    # (and without re-issuing the same call, i.e. a retry) hands the caller Ok after a failure
+                    if not bad:
+                        quiet = pg.reach(errs, set(v.all_err_nodes()) | {("t", bb)})
+                        if any(r in quiet for r in pg.returns()):
+                            bad = "partial"
+                    if bad == "partial":
+                        res.fail(Finding(res.rule, "%s/%s/err-arm-can-return-ok/%s" % (res.rule, f.path, c.name),
+                                         "one way out of the Err arm of the match on the result of %s reaches a return without reporting the error (and without retrying the call): the failure is turned into an Ok result" % c.name, f, t["span"]))
+                    elif bad:
                         res.fail(Finding(res.rule, "%s/%s/err-arm-continues/%s" % (res.rule, f.path, c.name),
                                          "the Err arm of the match on the result of %s does not return the error" % c.name, f, t["span"]))
                     else:
@@ -367,4 +378,80 @@ def posdim(ctx):
             else:
                 res.fail(Finding("R-POSDIM", "R-POSDIM/%s/position-formula" % f.path, "current_position() no longer returns window offset + cursor (%s)" % "; ".join(r[:80] for r in rets), f))
     res.floor("position stores", n, ctx.table("floors").get("posdim_sites", 0))
+    return res
+
+
+def poskeep(ctx):
+    """R-POSKEEP: the handle's position is window offset + cursor, and clear() zeroes the cursor, so a window
+    move keeps the position only if the new offset IS the old position.  Only seek (validated target) and
+    set_len (min(position, size)) may set another one; only set_len may make total_len smaller."""
+    import re
+    from prov import Prov
+    from rules_sink import guards
+    res = RuleResult("R-POSKEEP", "outside seek/set_len every new window offset is the current position (offset + cursor / current_position()); set_len stores min(position, size); total_len shrinks only in set_len and a shrink re-establishes the window (clear, or a test against the buffered length)")
+    tbl = ctx.table("stream")
+    POSF = [re.compile(x) for x in tbl.get("position_formula", [])]
+    CLAMP = [re.compile(x) for x in tbl.get("set_len_position", [])]
+    MONO = [re.compile(x) for x in tbl.get("monotone_length", [])]
+    n = 0
+    for f in _stream_methods(ctx):
+        v = view(ctx, f)
+        pr = Prov(f)
+        name = f.d["name"]
+
+        def values(node):
+            st = f.blocks[node[1]]["stmts"][node[2]]
+            val = pr._def((node[1], node[2], st), 0, ())
+            m = re.match(r"^var:(\w+)$", val)
+            if m:
+                names = {nm: l for l, nm in f.debug_names().items()}
+                l = names.get(m.group(1))
+                if l is not None:
+                    return st, [pr._def(d, 1, (l,)) for d in pr.defs.get(l, [])]
+            return st, [val]
+
+        for node in v.stores_to_field("buf_offset_from_start", STREAM):
+            st, vals = values(node)
+            n += 1
+            key = "R-POSKEEP/%s/window-offset" % f.path
+            if name == "seek":
+                res.ok({"function": f.path, "note": "seek sets the validated target (R-NOEFFECT / R-POSDIM decide the target)"})
+                continue
+            allowed = CLAMP + POSF if name == "set_len" else POSF
+            bad = [x for x in vals if not any(rx.search(x) for rx in allowed)]
+            if bad:
+                res.fail(Finding("R-POSKEEP", key + "/position-not-kept", "the window is restarted at %s, which is not the handle's current position (offset + cursor): the position jumps, later bytes land elsewhere in the stream" % bad[0][:120], f, st["span"]))
+            else:
+                res.ok({"function": f.path, "new_offset": vals[0][:90]}, nontrivial=True)
+        for node in v.stores_to_field("total_len", STREAM):
+            st, vals = values(node)
+            n += 1
+            key = "R-POSKEEP/%s/length" % f.path
+            g = guards(ctx, f)
+            if name != "set_len":
+                atoms = g.atoms_at(node)
+                bad = [x for x in vals if not any(rx.search(x) for rx in MONO) and not any(re.match(r"^\((Gt|Ge)\(.*,param:self\.total_len\)\)$", a) for a in atoms)]
+                if bad:
+                    res.fail(Finding("R-POSKEEP", key + "/length-may-shrink", "%s stores %s as the stream length without max(self.total_len, ..): only set_len may shorten the stream" % (name, bad[0][:120]), f, st["span"]))
+                else:
+                    res.ok({"function": f.path, "length": vals[0][:90]}, nontrivial=True)
+                continue
+            # set_len: after the length changed, the buffered window must be re-established on every path out
+            clears = set(v.call_nodes(lambda c: c.name.endswith("StreamBuffer::clear")))
+            from rules_sink import _edge_label
+            guarded = set()
+            for b, blk in enumerate(f.blocks):
+                if blk["cleanup"] or blk["term"]["t"] != "switch":
+                    continue
+                for k, tgt in enumerate(f.succ(b)):
+                    val, vs = _edge_label(f, b, k)
+                    if any("filled_len(" in a for a in g.describe_all(b, val, vs)):
+                        guarded.update(v.pg.edge_node(b, tgt))
+            after = v.pg.reach_after(node, avoid=clears | guarded)
+            rets = [x for x in after if x[0] == "t" and f.blocks[x[1]]["term"]["t"] == "return"]
+            if rets:
+                res.fail(Finding("R-POSKEEP", key + "/window-kept-across-length-change", "after the length is changed a return is reachable without clearing the buffer or testing the buffered length against the new size: the window may still hold bytes past the new end (read back, or rewritten by the next flush)", f, st["span"]))
+            else:
+                res.ok({"function": f.path, "length": vals[0][:60], "window": "cleared on every path"}, nontrivial=True)
+    res.floor("window/length stores", n, ctx.table("floors").get("poskeep_sites", 0))
     return res
